@@ -824,6 +824,7 @@ def mon_c08(sc, res):
         a = canon_ast(u["auth"]) if u.get("auth") is not None else None
         users[D.sbytes(u["name"]).lower()] = a
     who = {}          # conn -> auth object of the user it authenticated as
+    pwtab = {D.sbytes(u["name"]).lower(): D.sbytes(u["password"]) for u in sc.users}    # account -> password in force
     decl = {}         # path -> dict(fetch=set, set=set, call=set, kind)
     dead = set()
     secrets = [D.sbytes(u["password"]) for u in sc.users if len(D.sbytes(u["password"])) >= 5] + [b"new1", b"new2"] if auth else []
@@ -841,7 +842,18 @@ def mon_c08(sc, res):
                 params = cget(r, b"params")
                 mine = [v for v in resp if cget(v, b"id") == rid] if (is_id(rid) and (c, repr(rid)) not in dups) else []
                 okresp = len(mine) == 1 and has_member(mine[0], b"result")
+                if m == b"passwd" and is_obj(params) and isinstance(cget(params, b"user"), bytes):
+                    tgt = cget(params, b"user").lower()
+                    if okresp and isinstance(cget(params, b"password"), bytes):
+                        pwtab[tgt] = cget(params, b"password")
+                    elif len(mine) != 1:
+                        pwtab[tgt] = None          # outcome not observable: this account's password is unknown from here on
                 if m == b"authenticate" and okresp and is_obj(params) and isinstance(cget(params, b"user"), bytes):
+                    uname = cget(params, b"user").lower()
+                    if uname in pwtab and pwtab[uname] is not None and cget(params, b"password") != pwtab[uname]:
+                        fails.append("step %d: c%d was authenticated as %s with a password that is not that account's" % (si, c, show(cget(params, b"user"))))
+                    elif uname not in users:
+                        fails.append("step %d: c%d was authenticated as %s, an account the credential file does not have" % (si, c, show(cget(params, b"user"))))
                     who[c] = users.get(cget(params, b"user").lower())
                 elif m == b"authenticate" and len(mine) != 1:
                     who[c] = "unknown"      # outcome not observable (no usable request id): this peer is not judged any more
